@@ -72,6 +72,10 @@ func (g *docGen) strText() string {
 			g.stats["nul"]++
 		case 2:
 			sb.WriteString([]string{"\\u00e9", "\\u65e5", "\\u2028", "\\u001f", "\\u007f", "\\u0001", "\\u0007", "\\u000b", "\\udb40\\udc01", "\\ufeff", "\\u0085", "\\u00a0", "\\ufffe", "\\u200b"}[g.rng.IntN(14)])
+		case 10:
+			// text that looks like comments, paths ending in a backslash, URLs
+			sb.WriteString([]string{"C:\\\\tmp\\\\", "http://example.com/x", "//", "a // b", "/* c */", "\\\\", "\\\\\\\"", "# not a comment", "\\\\//"}[g.rng.IntN(9)])
+			g.stats["comment-and-path-like-text"]++
 		case 9:
 			// raw characters that reader-side conveniences like to drop: U+FEFF (the byte order mark), U+2028, DEL, a private-use astral character
 			sb.WriteString([]string{"\ufeff", "\u2028", "\x7f", "\U000e0001", "\u00a0", "\ufeffx\ufeff"}[g.rng.IntN(6)])
@@ -145,6 +149,10 @@ func (g *docGen) doc() string {
 	switch g.rng.IntN(10) {
 	case 0: // deep nesting with an empty container at the bottom
 		n := 20 + g.rng.IntN(181)
+		if g.rng.IntN(40) == 0 {
+			n = 4000 + g.rng.IntN(700) // beyond every other limit of the interpreter (4096 frames), well inside what the reader accepts (10000)
+			g.stats["very-deep"]++
+		}
 		var sb strings.Builder
 		closers := make([]byte, 0, n)
 		for i := 0; i < n; i++ {
@@ -273,7 +281,7 @@ func c04Doc(c *Case) {
 		c04Jq(c, text, lib.RootJSON)
 	}
 	// a sample through the binary: -o - and -o FILE
-	if c.Idx%20 == 0 && !strings.ContainsRune(text, 0) {
+	if c.Idx%20 == 0 && !strings.ContainsRune(text, 0) && g.stats["very-deep"] == 0 {
 		args := []string{}
 		for _, s := range sels {
 			args = append(args, "-r", s)
